@@ -29,7 +29,7 @@ from vf import mc_gates as mg
 from vf.core import MachineryError, exc_record
 
 META = {
-    "ready": False,
+    "ready": True,
     "category": "model_checking",
     "technique": "TLA+ spec (ModelCacheConc.tla) of reader/writer/crash steps on the cache file and shared libraries, model-checked by TLC (safety + liveness); every transition of its graphs replayed on real transfer_model calls run as threads gated at shimmed file operations; byte-offset fault enumeration on real cache files and libraries",
     "text": "TLC checks NoRaise, ReturnsCorrect and Recovers ([]<>Intact under weak fairness) on the intended variant (2 looping callers with different options, 3 chunks, 2-4 libraries, up to 2 crashes, absent/valid/truncated initial file) and produces the expected counterexamples for the as-built variants; the complete as-built transition graphs (all crash points sequentially in cache and codegen mode; all interleavings of two calls in cache mode) are replayed on the real code with the exact schedule enforced by gates on api.open/api.os/api.ca and the link step, and every completed call is checked for 'no exception' and 'model equals a fresh compile'; additionally every prefix length of real cache files (64 in quick, all in thorough) and sampled prefix lengths of a real shared library are presented to transfer_model.",
@@ -152,6 +152,8 @@ def run_path(sc):
     """Replay one path of a ModelCacheConc graph.  sc = {"mode","n","init","acts":[{"act":..., "pc_after":...}]}"""
     a = mc.api()
     mode, n = sc["mode"], sc["n"]
+    if sc.get("tmpdir"):
+        tempfile.tempdir = sc["tmpdir"]      # forked child: everything it creates lives under a dir the parent removes
     size = sc.get("chunk") or calibrate(mode, n)
     sb = mc.Sandbox(INIT_FILES)
     scratch = os.environ.get("VF_MC_SCRATCH")
@@ -246,10 +248,11 @@ def run_path_safe(sc):
     a forked child and turn a death by signal into an observation"""
     if sc["mode"] != "codegen":
         return run_path(sc)
+    tmpd = tempfile.mkdtemp(prefix="vfc21c_")
     fd, prog = tempfile.mkstemp(prefix="vfc21p_")
     os.close(fd)
     try:
-        kind, val = mc.isolated(run_path, dict(sc, progress=prog))
+        kind, val = mc.isolated(run_path, dict(sc, progress=prog, tmpdir=tmpd))
         if kind == "ok":
             return val
         if kind != "signal":
@@ -272,6 +275,7 @@ def run_path_safe(sc):
                "detail": "the process running transfer_model died with %s at step %d (%s:%s)" % (mc.signame(val), k, act["p"], act["ev"])}
         return {"records": [rec], "drift": {}, "stats": {"steps": k, "killed": 1}}
     finally:
+        shutil.rmtree(tmpd, ignore_errors=True)
         try:
             os.remove(prog)
         except FileNotFoundError:
